@@ -175,6 +175,30 @@ theorem pageHeadersAt_spZero (cfg : SWCfg) (c : Col) (codec : Nat) (compress : B
   rw [h]
   rfl
 
+/-- the pages of a chunk are emitted one after the other; the later ones see the choices the earlier ones left -/
+theorem spEmit_append (cfg : SWCfg) (c : Col) (codec : Nat) (compress : Bytes → Bytes) :
+    ∀ (a b : List PageEntries) (cs : Choices),
+      (spEmit cfg c codec compress (a ++ b) cs).1 =
+        (spEmit cfg c codec compress a cs).1 ++ (spEmit cfg c codec compress b (spEmit cfg c codec compress a cs).2).1
+  | [], b, cs => by simp [spEmit]
+  | p :: ps, b, cs => by
+    simp only [List.cons_append, spEmit, spEmit_append cfg c codec compress ps b, List.append_assoc]
+
+/-- **`PageHeadersAtOffset` started at ANY page of a chunk of the spec writer** (`before` = the pages of the
+chunk in front of the offset): the headers of the shortest non-empty prefix of the remaining pages `ess`
+whose `num_values` reach `n`. -/
+theorem pageHeadersAt_spPageCover (cfg : SWCfg) (c : Col) (codec : Nat) (compress : Bytes → Bytes)
+    (before ess : List PageEntries) (cs : Choices) (pre post : Bytes) (n : Int) (hne : ess ≠ [])
+    (hn : n ≤ (((ess.map List.length).sum : Nat) : Int)) :
+    pageHeadersAt (pre ++ (spEmit cfg c codec compress (before ++ ess) cs).1 ++ post)
+        ((pre.length + (spEmit cfg c codec compress before cs).1.length : Nat) : Int) n =
+      .ok (spEmitHdrs cfg c codec compress (coverPrefix n 0 (decide (n > 0)) ess) (spEmit cfg c codec compress before cs).2) := by
+  have h := pageHeadersAt_spCover cfg c codec compress ess (spEmit cfg c codec compress before cs).2
+    (pre ++ (spEmit cfg c codec compress before cs).1) post n hne hn
+  rw [List.length_append] at h
+  rw [← h, spEmit_append]
+  simp only [List.append_assoc]
+
 /-! ## the chunk of one column of a row group -/
 
 /-- the pages of the chunk of column `ci` of the row group `recs` (cut at record boundaries by the choices)
